@@ -137,6 +137,13 @@ def run(ctx):
         for (a_, nm) in ((x, "first"), (y, "second")):
             g_ = paths.guarded(add, n_, lambda f, c, pol, a_=a_: paths.rel(f, c, pol, subst=False) == ("%s->zero" % lm, "<", a_))
             ctx.check(r3, g_, key(add, "zero-before-table:%s" % nm), add.where(n_), "the difference is computed without a dominating test that the %s argument is above log-zero: zero + zero (and anything within the table's length of zero) is then looked up in the table instead of returning the other argument" % nm)
+    # so is every other way of computing the sum (the exact fallback used without a table)
+    for r in add.find("Return"):
+        if not add.ch(r) or not list(add.find("Call", root=add.ch(r)[0])):
+            continue
+        for (a_, nm) in ((x, "first"), (y, "second")):
+            g_ = paths.guarded(add, r, lambda f, c, pol, a_=a_: paths.rel(f, c, pol, subst=False) == ("%s->zero" % lm, "<", a_))
+            ctx.check(r3, g_, key(add, "zero-before-fallback:%s" % nm), add.where(r), "the sum is handed to `%s` without a dominating test that the %s argument is above log-zero: log-zero is then not the identity (the fallback goes through floating point and rounds)" % (add.canon(add.ch(r)[0], subst=False)[:40], nm))
     # the larger argument and the difference, path by path over values (symx.run_paths): two-armed if,
     # conditional expressions or a swap of the operands read alike
     from .. import symx, lin
